@@ -32,7 +32,7 @@ func genMixedTree(g *rng, n int, dataBytes int) treeSpec {
 			ns.Data = genFileData(g, sz)
 			ns.Mode |= 0o400 // readable by the (root) sender anyway; keep owner-read for non-root reruns
 		case "l":
-			ns.Link = []string{"e00f", "../outside", "/etc/hostname", "dangling-\xff", strings.Repeat("long/", 40) + "x", "."}[g.intn(6)]
+			ns.Link = []string{"e00f", "../outside", "/etc/hostname", "dangling-\xff", strings.Repeat("long/", 40) + "x", ".", "d0/../e00f", "./e00f", "d0//x", "d0/", "missing/../also-missing/."}[g.intn(11)]
 		case "c", "b":
 			ns.Rdev = (1+g.intn(250))<<8 | g.intn(256)
 		}
